@@ -1,0 +1,33 @@
+//go:build verif
+
+// Contracts for the deductive verification in /verif (comment-only; compiled to
+// nothing). Syntax: see /verif/DESIGN.md section 2.2.
+package types
+
+// ---- spec functions (written from the property statement C04) --------------
+//
+// climb(p, i, n, c, x): hash the node c up the path p from level i to level n,
+// taking the sibling on the right when the low bit of the position x is 0 and on
+// the left otherwise, halving the position at every level.
+// shr(x, n): x shifted right by n bits; "position < 2^n" is shr(x, n) == 0.
+//
+//@ smt (define-fun hashpair ((a Bytes) (b Bytes)) Bytes (dsha256 (bcat a b)))
+//@ smt (define-fun-rec climb ((p Bytes) (i Int) (n Int) (c Bytes) (x Int)) Bytes
+//@       (ite (>= i n) c
+//@            (climb p (+ i 1) n
+//@                   (ite (= (mod x 2) 0) (hashpair c (bsub p (* 32 i) (+ (* 32 i) 32))) (hashpair (bsub p (* 32 i) (+ (* 32 i) 32)) c))
+//@                   (div x 2))))
+//@ smt (define-fun-rec shr ((x Int) (n Int)) Int (ite (<= n 0) x (shr (div x 2) (- n 1))))
+
+//@ func VerifyMerkelProof
+//@ property C04 C03 C05
+//@ ensures sound: result ==> len(txid) == 32 && len(root) == 32 && len(proof)%32 == 0 && climb(proof, 0, len(proof)/32, txid, index) == root
+//@ ensures position_bound: result ==> shr(index, len(proof)/32) == 0
+//@ ensures complete: (len(txid) == 32 && len(root) == 32 && len(proof)%32 == 0 && climb(proof, 0, len(proof)/32, txid, index) == root && shr(index, len(proof)/32) == 0) ==> result
+//@ loop 0 invariant bounds: 0 <= i && i <= nodes
+//@ loop 0 invariant cur_len: len(current) == 32
+//@ loop 0 invariant climb_eq: climb(proof, i, nodes, current, index) == climb(proof, 0, nodes, txid, old(index))
+//@ loop 0 invariant shr_eq: shr(index, nodes - i) == shr(old(index), nodes)
+//@ loop 0 decreases nodes - i
+//@ modifies nothing
+//@ nopanic
